@@ -7,8 +7,9 @@ Line-protocol driver for the constructor model (`Glue/Ctor.lean`, property C06).
             or the name of the exception (`TypeError`, `ValueError`).
   A name outside the 19 recognised ones is allowed (it sets the `other` bit of the name set; the array constructors
   carry it along as an extra field: `array` after the recognised extras, `zip`/`Array` in field order).
-  `selfcheck` : compares the grouped model with the literal transcriptions (`VG.Seq`) on all 2^19 name sets
-  (object classes: additionally with the reversed keyword order) and prints the number of disagreements.
+  `selfcheck` / `selfcheck <lo> <hi>` : compares the grouped model with the literal transcriptions (`VG.Seq`) of the same
+  source lines — on every name set with at most 5 names plus every 61st other one, resp. on all sets with mask in [lo, hi)
+  (each in `_coordinate_order` and reversed) — and prints the number of disagreements (the full range takes ~25 min interpreted).
 
 Run:  cd /verif/lean && lake env lean --run VectorModel/Driver/Ctor.lean
 -/
@@ -28,8 +29,13 @@ def showE (extra : List String) : Except CtorErr CtorRes → String
 
 def answer (line : String) : String :=
   let line := line.trimAscii.toString
-  if line == "selfcheck" then
-    let (nchecked, bad) := Seq.selfcheck
+  if line.startsWith "selfcheck" then
+    -- `selfcheck`           : every name set with at most 5 names, and every 61st of the others
+    -- `selfcheck <lo> <hi>` : every name set with mask in [lo, hi)   (masks: bit i = i-th name of `_coordinate_order`; hi ≤ 524288)
+    let args := (line.splitOn " ").filterMap String.toNat?
+    let (nchecked, bad) := match args with
+      | [lo, hi] => Seq.selfcheck lo (min hi (2^19)) (fun _ => true)
+      | _ => Seq.selfcheck 0 (2^19) (fun k => Seq.popcount k ≤ 5 || k % 61 == 0)
     s!"selfcheck {nchecked} comparisons, {bad.length} disagreements" ++
       (if bad.isEmpty then "" else "\n" ++ "\n".intercalate (bad.take 20))
   else
